@@ -66,7 +66,9 @@ pub fn between_tags(xml: &str, rng: &mut Rng) -> String {
 pub fn unknown_elements(xml: &str, rng: &mut Rng) -> String {
     let mut out = String::with_capacity(xml.len() + 256);
     let mut rest = xml;
-    let junk = ["<Unknown><Sub a=\"1\">text</Sub><E /></Unknown>", "<PreviousParentGroup>AAAAAAAAAAAAAAAAAAAAAA==</PreviousParentGroup>", "<X><X><X>deep</X></X></X>", "<Future Protected=\"False\" />"];
+    // (the last one is known inside <Entry>: the reference of an entry to a pool attachment, which the
+    //  object model does not keep; elsewhere it is just another unknown element)
+    let junk = ["<Unknown><Sub a=\"1\">text</Sub><E /></Unknown>", "<PreviousParentGroup>AAAAAAAAAAAAAAAAAAAAAA==</PreviousParentGroup>", "<X><X><X>deep</X></X></X>", "<Future Protected=\"False\" />", "<Binary><Key>attachment.txt</Key><Value Ref=\"0\" /></Binary>"];
     loop {
         let next = ["<Entry>", "<Group>", "<Meta>", "<AutoType>", "<Association>", "<MemoryProtection>"]
             .iter()
